@@ -138,6 +138,26 @@ func c07RunOp(p *plenc.Plenc, cfg model.Cfg, op *c07Op, pkgLevel bool) string {
 	return ""
 }
 
+// appendUvarintZZ appends the zig-zag varint of v
+func appendUvarintZZ(b []byte, v int64) []byte {
+	return refAppendUvarint(b, uint64(v<<1)^uint64(v>>63))
+}
+
+// keyHasNaN: a float key that is NaN, or a struct key with a NaN field
+func keyHasNaN(k reflect.Value) bool {
+	switch k.Kind() {
+	case reflect.Float32, reflect.Float64:
+		return k.Float() != k.Float()
+	case reflect.Struct:
+		for i := 0; i < k.NumField(); i++ {
+			if keyHasNaN(k.Field(i)) {
+				return true
+			}
+		}
+	}
+	return false
+}
+
 // hasNaNKey reports whether v holds a map with a NaN key somewhere
 func hasNaNKey(v reflect.Value, depth int) bool {
 	if depth > 12 {
@@ -164,7 +184,7 @@ func hasNaNKey(v reflect.Value, depth int) bool {
 	case reflect.Map:
 		it := v.MapRange()
 		for it.Next() {
-			if k := it.Key(); (k.Kind() == reflect.Float64 || k.Kind() == reflect.Float32) && k.Float() != k.Float() {
+			if keyHasNaN(it.Key()) {
 				return true
 			}
 			if hasNaNKey(it.Key(), depth+1) || hasNaNKey(it.Value(), depth+1) {
@@ -428,6 +448,92 @@ func c07Steady(c *core.Ctx, idx int) {
 	}
 }
 
+// c07Deep: a recursive value a thousand levels deep (a linked list) decoded and encoded by 32
+// goroutines at once on one instance: whatever a codec counts or keeps per call must be per call,
+// not per codec
+func c07Deep(c *core.Ctx, idx int) {
+	rec := c.Rec
+	r := c.Rand(idx)
+	cfg := instCfgs()[idx%4]
+	name := cfgName(cfg)
+	depth := []int{1000, 1300}[r.IntN(2)] // (encoding a list costs the square of its depth)
+	var head *types.Tree
+	for i := 0; i < depth; i++ {
+		head = &types.Tree{V: i + 1, Next: head}
+	}
+	p := instNew(cfg)
+	data, err := p.Marshal(nil, head)
+	if err != nil {
+		rec.Violation("concurrent-result", fmt.Sprintf("[%s] Marshal of a list %d deep: %v", name, depth, err), nil)
+		return
+	}
+	// a deeper list for the decoders (its bytes are assembled from the inside out: encoding it with
+	// Marshal would cost the square of its depth)
+	const deep = 4000
+	var deepData []byte
+	for i := 0; i < deep; i++ {
+		body := append([]byte{0x08}, appendUvarintZZ(nil, int64(i+1))...)
+		if len(deepData) > 0 {
+			body = append(body, 0x1a) // field 3 (Next), length-delimited
+			body = refAppendUvarint(body, uint64(len(deepData)))
+			body = append(body, deepData...)
+		}
+		deepData = body
+	}
+	var first types.Tree
+	if err := p.Unmarshal(deepData, &first); err != nil {
+		rec.Violation("concurrent-result", fmt.Sprintf("[%s] Unmarshal of a list %d deep, alone: %v", name, deep, err), nil)
+		return
+	}
+	const g, per = 32, 12
+	var wg sync.WaitGroup
+	fails := make([]string, g)
+	start := make(chan struct{})
+	for w := 0; w < g; w++ {
+		wg.Add(1)
+		go func(w int) {
+			defer wg.Done()
+			<-start
+			// everybody encodes the list first, at the same moment
+			if again, err := p.Marshal(nil, head); err != nil || !bytes.Equal(again, data) {
+				fails[w] = fmt.Sprintf("Marshal gives other bytes than alone (%v)", err)
+				return
+			}
+			for k := 0; k < per && fails[w] == ""; k++ {
+				pn := core.Guard(func() {
+					var out types.Tree
+					if err := p.Unmarshal(deepData, &out); err != nil {
+						fails[w] = fmt.Sprintf("Unmarshal of a list %d levels deep: %v", deep, err)
+						return
+					}
+					n := 0
+					for t := &out; t != nil; t = t.Next {
+						n++
+					}
+					if n != deep {
+						fails[w] = fmt.Sprintf("decoded %d of %d levels", n, deep)
+						return
+					}
+				})
+				if pn != "" {
+					fails[w] = "panic: " + trunc1(pn)
+				}
+			}
+		}(w)
+	}
+	close(start)
+	wg.Wait()
+	rec.Eval(g * per)
+	rec.Count("deep_value_trials", 1)
+	rec.NonTrivial(core.Hash64("deep", name, fmt.Sprint(idx)))
+	for w, f := range fails {
+		if f != "" {
+			rec.Violation("concurrent-result", fmt.Sprintf("[%s] %d goroutines encoding a list %d levels deep and decoding one %d levels deep, which both work alone: goroutine %d: %s", name, g, depth, deep, w, f), map[string]any{"depth": depth})
+			return
+		}
+	}
+}
+
 // c07DirectTypes: structs that Go stores directly in an interface word
 func c07DirectTypes() []reflect.Type {
 	T := reflect.TypeOf
@@ -458,6 +564,10 @@ func c07Case(c *core.Ctx, idx int) {
 	}
 	if idx%199 == 3 {
 		c07Steady(c, idx)
+		return
+	}
+	if idx%211 == 17 {
+		c07Deep(c, idx)
 		return
 	}
 	rec := c.Rec
